@@ -42,14 +42,29 @@ pub fn scratch_dir() -> PathBuf {
 pub fn run(exe: &Path, tag: &str, pre: &[&str], pos: &[&str], env: &[(&str, String)], timeout_s: u64) -> Out {
     let dir = scratch_dir();
     let base = dir.join(format!("{}-{}", tag, std::process::id()));
+    // Re-running into the same --outfile is the normal way to use the tool: every other run
+    // (by tag) finds both output files already there, left by an earlier, much longer result.
+    // What a run writes must be its own result and nothing else.
+    if crate::common::hash_str(tag) % 2 == 0 {
+        let filler = "0123456789abcdef".repeat(16 * 1024);
+        let _ = std::fs::write(base.with_extension("json"), format!("{{\"left_over_from_an_earlier_run\":\"{}\"}}\n", filler));
+        let _ = std::fs::write(base.with_extension("svg"), format!("<svg xmlns=\"http://www.w3.org/2000/svg\"><!-- left over from an earlier run {} --></svg>\n", filler));
+        return run_inner(exe, &base, pre, pos, env, timeout_s, true, false);
+    }
     run_with_outfile(exe, &base, pre, pos, env, timeout_s, true)
 }
 
 pub fn run_with_outfile(exe: &Path, base: &Path, pre: &[&str], pos: &[&str], env: &[(&str, String)], timeout_s: u64, cleanup: bool) -> Out {
+    run_inner(exe, base, pre, pos, env, timeout_s, cleanup, true)
+}
+
+fn run_inner(exe: &Path, base: &Path, pre: &[&str], pos: &[&str], env: &[(&str, String)], timeout_s: u64, cleanup: bool, fresh: bool) -> Out {
     let log = PathBuf::from(format!("{}.hooklog", base.display()));
     let _ = std::fs::remove_file(&log);
-    let _ = std::fs::remove_file(base.with_extension("json"));
-    let _ = std::fs::remove_file(base.with_extension("svg"));
+    if fresh {
+        let _ = std::fs::remove_file(base.with_extension("json"));
+        let _ = std::fs::remove_file(base.with_extension("svg"));
+    }
     let mut cmd = Command::new(exe);
     cmd.arg("--outfile").arg(base);
     for a in pre {
